@@ -101,15 +101,22 @@ static int vpe_isspace(char c) { return c == ' ' || (c >= 9 && c <= 13); }
 static int vpe_digit(char c) { if (c >= '0' && c <= '9') return c - '0'; if (c >= 'a' && c <= 'z') return c - 'a' + 10; if (c >= 'A' && c <= 'Z') return c - 'A' + 10; return 99; }
 static long vpe_strtol(const char *nptr, char **endptr, int base)
 {
-	size_t i = 0, start; int neg = 0, ovf = 0; unsigned long v = 0;
+	size_t i = 0, start; int neg = 0, ovf = 0; unsigned long v = 0, lim, limdiv;
 	while (vpe_isspace(nptr[i])) i++;
 	if (nptr[i] == '+' || nptr[i] == '-') { neg = nptr[i] == '-'; i++; }
 	if (base == 16 && nptr[i] == '0' && (nptr[i + 1] == 'x' || nptr[i + 1] == 'X') && vpe_digit(nptr[i + 2]) < 16) i += 2;
 	start = i;
-	while (vpe_digit(nptr[i]) < base) {
-		unsigned d = (unsigned)vpe_digit(nptr[i]);
-		if (v > ((unsigned long)LONG_MAX + (neg ? 1UL : 0UL) - d) / (unsigned)base) ovf = 1; else v = v * (unsigned)base + d;
-		i++;
+	/* (no division by a symbolic value: both limits fold to constants for a literal base) */
+	if (neg) { lim = (unsigned long)LONG_MAX + 1UL; limdiv = ((unsigned long)LONG_MAX + 1UL) / (unsigned long)base; }
+	else { lim = (unsigned long)LONG_MAX; limdiv = (unsigned long)LONG_MAX / (unsigned long)base; }
+	{	/* the first 15 digits cannot overflow 63 bits in base <= 16: no check (keeps the formula linear) */
+		int nd = 0;
+		while (vpe_digit(nptr[i]) < base) {
+			unsigned long d = (unsigned long)vpe_digit(nptr[i]);
+			if (nd < 15 && base <= 16) v = v * (unsigned long)base + d;
+			else if (v > limdiv || v * (unsigned long)base > lim - d) ovf = 1; else v = v * (unsigned long)base + d;
+			i++; nd++;
+		}
 	}
 	if (i == start) { if (endptr) *endptr = (char *)nptr; return 0; }
 	if (endptr) *endptr = (char *)nptr + i;
